@@ -20,14 +20,19 @@ class SPEC:
 ZERO = {11: "f", 12: "x-", 13: "x-", 18: "x-", 19: "x-", 0: "x-"}
 
 
-def zero_value(ie):
+NEG_ZERO = {9: "n2147483648", 10: "n9223372036854775808"}   # float32 / float64 -0.0: `value == 0` holds in Go
+
+
+def zero_value(ie, rng=None):
+    if rng is not None and ie.ty in NEG_ZERO and rng.random() < 0.3:
+        return NEG_ZERO[ie.ty]
     return ZERO.get(ie.ty, "n0")
 
 
 def elems_token(rng, ies, data):
     if not ies:
         return "-"
-    return ",".join("%s=%s" % (ie.tok(), G.well_typed_value(rng, ie, big_ok=False, maxlen=300) if data else zero_value(ie)) for ie in ies)
+    return ",".join("%s=%s" % (ie.tok(), G.well_typed_value(rng, ie, big_ok=False, maxlen=300) if data else zero_value(ie, rng)) for ie in ies)
 
 
 def body_ops(rng, n, sup):
